@@ -103,6 +103,8 @@ CHECKS = {
             {"harnesses": [H + "ZZH6Pretty"], "flags": VLQ_REDIRECT, "quick": {"budget": 0, "stmts": 2, "palette": 12, "palettemask": 513, "trivia": 1, "triviakinds": 5, "nofunc": 1, "indents": 1}, "thorough": {"budget": 0, "stmts": 3, "palette": 12, "palettemask": 513, "trivia": 2, "triviakinds": 5, "nofunc": 1, "indents": 2}},
             # statement structure (nested if/else/while/for/blocks) with identifier leaves and free empty blocks
             {"harnesses": [H + "ZZH6Pretty"], "flags": VLQ_REDIRECT, "quick": {"budget": 2, "stmts": 1, "palette": 12, "palettemask": 1, "maxlist": 1, "nofunc": 1, "exprmask": 1, "trivia": 0, "indents": 1}, "thorough": {"budget": 3, "stmts": 1, "palette": 12, "palettemask": 1, "maxlist": 1, "nofunc": 1, "exprmask": 1, "trivia": 0, "indents": 1}},
+            # if / else, while and blocks with comments on any token (also on `else` after a brace-less branch)
+            {"harnesses": [H + "ZZH6Pretty"], "flags": VLQ_REDIRECT, "quick": {"budget": 2, "stmts": 1, "trivia": 1, "triviakinds": 5, "stmtmask": 44, "exprmask": 1024, "nofunc": 1, "indents": 1, "atoms": 1, "maxlist": 1}, "thorough": {"budget": 2, "stmts": 2, "trivia": 1, "triviakinds": 5, "stmtmask": 44, "exprmask": 1024, "nofunc": 1, "indents": 1, "atoms": 1, "maxlist": 1}},
         ],
     },
     "C07": {
